@@ -79,21 +79,26 @@ Definition fail_dead (e : ex) (i : nat) : ex :=
 Definition dead_ids (e : ex) : list nat := map fst (filter (fun ip => negb (p_alive (snd ip))) (running e)).
 Definition consume (e : ex) : ex := fold_left fail_dead (dead_ids e) (drain (rqueue e) e).
 
-Definition wait (sp : start_policy) (e : ex) : ex := start_processes sp (consume e).
+Definition wait (sp : start_policy) (wp : wait_policy) (e : ex) : ex :=
+  match wp with
+  | WaitAlwaysStarts => start_processes sp (consume e)
+  | WaitStartsIfReceived => match rqueue e with [] => consume e | _ :: _ => start_processes sp (consume e) end
+  | WaitUnknown => consume e
+  end.
 
 Inductive exop := XSubmit | XWait (envs : list envstep) | XCancel | XStop.
-Definition exstep (sp : start_policy) (e : ex) (o : exop) : ex :=
+Definition exstep (sp : start_policy) (wp : wait_policy) (e : ex) (o : exop) : ex :=
   match o with
   | XSubmit => submit sp e
-  | XWait envs => wait sp (fold_left env envs e)
+  | XWait envs => wait sp wp (fold_left env envs e)
   | XCancel => cancel e
   | XStop => stop e
   end.
 (* every state the executor passes through between calls *)
-Fixpoint states (sp : start_policy) (e : ex) (ops : list exop) : list ex :=
+Fixpoint states (sp : start_policy) (wp : wait_policy) (e : ex) (ops : list exop) : list ex :=
   match ops with
   | [] => [e]
-  | o :: ops' => e :: states sp (exstep sp e o) ops'
+  | o :: ops' => e :: states sp wp (exstep sp wp e o) ops'
   end.
 Definition init_ex (w : nat) : ex := {| maxw := w; pendq := []; running := []; rqueue := []; futs := []; next := 0 |}.
 
@@ -109,10 +114,10 @@ Definition pair_eqb (a b : nat * nat) : bool := Nat.eqb (fst a) (fst b) && Nat.e
 Definition xobs_eqb (a b : xobs) : bool :=
   list_eqb Nat.eqb (xo_running a) (xo_running b) && list_eqb Nat.eqb (xo_pendq a) (xo_pendq b)
   && list_eqb pair_eqb (xo_done a) (xo_done b).
-Fixpoint run_ex (sp : start_policy) (e : ex) (ops : list exop) : list xobs :=
+Fixpoint run_ex (sp : start_policy) (wp : wait_policy) (e : ex) (ops : list exop) : list xobs :=
   match ops with
   | [] => []
-  | o :: ops' => let e' := exstep sp e o in obs_of e' :: run_ex sp e' ops'
+  | o :: ops' => let e' := exstep sp wp e o in obs_of e' :: run_ex sp wp e' ops'
   end.
-Definition check_xcase (sp : start_policy) (k : xcase) : bool :=
-  list_eqb xobs_eqb (run_ex sp (init_ex (xc_maxw k)) (xc_ops k)) (xc_obs k).
+Definition check_xcase (sp : start_policy) (wp : wait_policy) (k : xcase) : bool :=
+  list_eqb xobs_eqb (run_ex sp wp (init_ex (xc_maxw k)) (xc_ops k)) (xc_obs k).
